@@ -14,16 +14,17 @@ import (
 // after a simulated crash); the kernel then steps under Policy until the stage's
 // end condition holds. Check is evaluated at the end of the stage.
 type Stage struct {
-	Name     string
-	Do       func(w *World)
-	Policy   *Policy
-	Steps    int                 // >0: run exactly this many kernel steps
-	Until    func(w *World) bool // optional additional end condition (checked after each step)
-	Quiet    bool                // run until the world is quiet (see RunQuiet)
-	Window   time.Duration       // quiet window override
-	MaxSteps int                 // budget for Quiet / Until stages (default 4000)
-	Check    func(w *World) *Violation
-	OnBudget func(w *World) *Violation // the stage did not end within MaxSteps (liveness oracle); nil = inconclusive
+	CheckOnBudget bool // run Check also when the stage runs out of steps (history oracles)
+	Name          string
+	Do            func(w *World)
+	Policy        *Policy
+	Steps         int                 // >0: run exactly this many kernel steps
+	Until         func(w *World) bool // optional additional end condition (checked after each step)
+	Quiet         bool                // run until the world is quiet (see RunQuiet)
+	Window        time.Duration       // quiet window override
+	MaxSteps      int                 // budget for Quiet / Until stages (default 4000)
+	Check         func(w *World) *Violation
+	OnBudget      func(w *World) *Violation // the stage did not end within MaxSteps (liveness oracle); nil = inconclusive
 }
 
 // Scenario builds a world for one run of one property.
@@ -78,16 +79,22 @@ func (w *World) quietWindow(st *Stage) time.Duration {
 	if w.ResyncHint > 0 {
 		win += 2*w.ResyncHint + w.ResyncHint/5
 	}
-	// A failing item is re-queued with per-item exponential back-off (5 ms doubling,
-	// capped at 1000 s). The delay pending after the last failure is at most the sum of
-	// all earlier delays, i.e. at most the time the failures have been going on for.
-	if n := len(w.Errs); n > 0 {
-		span := w.Errs[n-1].Sim - w.Errs[0].Sim
-		b := span + span/8 + time.Second
-		if b > 1001*time.Second {
-			b = 1001 * time.Second
+	// A failing item is re-queued with per-item exponential back-off; the delay
+	// still pending after the last failure is read from the rate limiters of the
+	// hosted controllers (failure count per item, base and cap as configured there).
+	// It cannot be inferred from the time the failures took: an item that is
+	// re-queued by watch events fails many times in little time, and each failure
+	// doubles the delay.
+	if d, ok := w.pendingBackoff(); ok {
+		if d > 0 {
+			win += d + d/8 + time.Second
 		}
-		win += b
+		w.Probes["quiet-window-from-rate-limiter"] = 1
+	} else if n := len(w.Errs); n > 0 {
+		// fallback (structures not as expected): the longest delay client-go's default
+		// controller rate limiter ever asks for
+		win += 1001 * time.Second
+		w.Probes["quiet-window-fallback"] = 1
 	}
 	win += w.ExtraQuiet
 	return win
@@ -129,7 +136,7 @@ func (w *World) runStage(st *Stage) bool {
 				w.lastSig = sig
 				ss.lastEvent = w.SimTime()
 			}
-			if w.Idle() && !w.InSync() && !w.procBusy() && w.SimTime()-ss.lastEvent >= w.quietWindow(st) {
+			if w.Idle() && !w.InSync() && !w.procBusy() && w.SimTime()-ss.lastEvent >= w.quietWindow(st) && w.connected() {
 				break
 			}
 		}
@@ -139,6 +146,15 @@ func (w *World) runStage(st *Stage) bool {
 			if st.OnBudget != nil {
 				if v := st.OnBudget(w); v != nil && !w.Known(v) {
 					v.Step = w.step
+					w.Violation = v
+				}
+			}
+			if w.Violation == nil && st.CheckOnBudget && st.Check != nil {
+				// the stage's oracle judges the recorded history and does not need the world at rest
+				if v := st.Check(w); v != nil && !w.Known(v) {
+					if v.Step == 0 {
+						v.Step = w.step
+					}
 					w.Violation = v
 				}
 			}
